@@ -87,6 +87,15 @@ func (env *SEnv) assumeWF(t Term, goT types.Type) {
 	if _, isStruct := goT.Underlying().(*types.Struct); isStruct {
 		return
 	}
+	// one fact per heap term: the same term denotes the same heap contents in every later state, and the
+	// bound established at its first use (the smallest allocation counter) stays valid
+	if env.u.wfSeen == nil {
+		env.u.wfSeen = map[string]bool{}
+	}
+	if env.u.wfSeen[t.S] {
+		return
+	}
+	env.u.wfSeen[t.S] = true
 	inv := env.u.typeInv(t, goT, env.u.comp(env.cur, "alloc"))
 	if inv.S == "true" {
 		return
@@ -99,9 +108,9 @@ func (env *SEnv) assumeWF(t Term, goT types.Type) {
 	}
 	if len(used) > 0 {
 		// inside a quantifier: well-formedness holds for every instance of the bound variables
-		env.u.assume(True, Forall(used, Implies(env.pc, inv), []Term{t}))
+		env.u.assume(True, Forall(used, inv, []Term{t}))
 	} else {
-		env.u.assume(env.pc, inv)
+		env.u.assume(True, inv)
 	}
 }
 
